@@ -130,16 +130,20 @@ void check_solution(const char * kind, const Problem & p, const Ref & R, const J
   const VecL d   = p.d.cast<LD>();
   const VecL Dx  = d.cwiseProduct(R.dx);
   const LD nrm   = Dx.norm();
-  LD ref         = 0;
+  LD ref = 0, qy = 0;
   if (nrm > 0) {
-    const VecL y = Eigen::LDLT<MatL>(R.H).solve(VecL(d.cwiseProduct(d).cwiseProduct(R.dx)));
-    ref          = -(d.cwiseProduct(Dx)).dot(y) / nrm;
+    const VecL q = d.cwiseProduct(Dx);
+    const VecL y = Eigen::LDLT<MatL>(R.H).solve(q);
+    ref          = -q.dot(y) / nrm;
+    qy           = q.norm() * y.norm() / nrm;  // size of the terms of q'H^{-1}q before they cancel
   }
   // relative accuracy of dphi: conditioning of the solve and of the product J'r (cancellation)
   const LD gcanc = R.g.norm() > 0 ? JnRn / R.g.norm() : std::numeric_limits<LD>::infinity();
-  const LD relt  = 1e-6L + 100 * R.cond * 2.3e-16L + 100 * gcanc * 2.3e-16L;
+  const LD relt  = 1e-5L + 100 * R.cond * 2.3e-16L + 100 * gcanc * 2.3e-16L;
   if (relt < 1e-2L) {
-    const LD sc = std::max<LD>(std::abs(ref), 1e-300L);
+    // dphi = -q'H^{-1}q / |D dx| with q = D^2 dx: when |D dx| barely depends on lambda the quadratic form is small
+    // against |q| |H^{-1} q| and can only be computed relative to the latter
+    const LD sc = std::max<LD>({std::abs(ref), qy, 1e-300L});
     if (nrm > 0 && nrm > 1e-9L * (R.g.norm() / std::max<LD>(R.Hnorm, 1e-300L))) {
       ctx.le(std::string(kind) + ": dphi == closed-form derivative", static_cast<double>(std::abs(static_cast<LD>(dphi) - ref) / sc), static_cast<double>(relt));
       // independent of the closed form: complex-step derivative of phi(lambda) = sqrt(sum (d_i x_i(lambda))^2)
@@ -186,8 +190,11 @@ void c10_solve(vf::Tape & t, vf::Ctx & ctx)
   const Eigen::SparseMatrix<double> Jsp = p.J.sparseView();
   check_solution("sparse", p, R, Jsp, ctx, &dxs);
   if (R.cond <= 1e8L) {
-    const double sc = std::max(1e-300, dxd.norm());
-    ctx.le("dense and sparse give the same dx", (dxd - dxs).norm() / sc, dxd.norm() > 0 ? 1e-6 : 0.0);
+    // relative to |dx|, plus the part of dx that is rounding noise of the product J'r (r orthogonal to range(J): J'r
+    // cancels to eps |J| |r|, summed in a different order by the dense and the sparse product)
+    const LD lmin      = R.Hnorm / R.cond;
+    const double noise = static_cast<double>(64 * 2.3e-16L * p.J.cast<LD>().norm() * p.r.cast<LD>().norm() / lmin);
+    ctx.le("dense and sparse give the same dx", (dxd - dxs).norm(), 1e-6 * dxd.norm() + noise);
   }
 
   // solve_trust_region: lambda = 1/Delta and the same dx
